@@ -12,7 +12,9 @@ CHECK = dict(
           'databases open, the stored height equals the height of the last UTXO batch that was applied '
           'before the crash, and every observable equals RefIndex(chain to that height); after resuming, '
           'the final state equals RefIndex(final chain) (= the uninterrupted run). quick samples crash '
-          'positions, thorough runs longer. non-trivial = a crash fired and an audit completed; '
+          'positions across runs; in the thorough tier half of the evaluations are in-run enumerations: a '
+          'reference pass counts the matching durable operations of one generated run, then the same seed is '
+          're-run once per position (up to 160, torn-write variants cycled). non-trivial = a crash fired and an audit completed; '
           'distinct = distinct interleaving signature incl. the crash operation'),
     assumptions=['SimDB/SimFS stand in for LevelDB and the file system (batches atomic, completed '
                  'operations durable: process death, not power loss)',
